@@ -47,7 +47,7 @@ def leg_a(d, tier, timeout):
     """TLC: enumerate the matrix, write the cases, model-check every case on the code-shaped model."""
     cases = os.path.join(d, "cases.ndjson")
     r = vlib.tlc("MC_CommitTx", os.path.join(vlib.SPEC, "MC_CommitTx.cfg"), env=dict(_sw(), CT_TIER=tier, CT_OUT=cases),
-                 workers=8, timeout=timeout, extra=["-seed", str(vlib.seed())],
+                 workers=8, timeout=timeout, extra=["-continue", "-seed", str(vlib.seed())],
                  name="mc-committx-%s%s" % (tier, "-private" if PRIVATE else ""))
     m = re.search(r'<<"CT_MATRIX", (\d+), (\d+), (\{[^}]*\})>>', r["out"])
     if not m:
